@@ -7097,6 +7097,14 @@ impl<'a> Tyck<'a> for TyEnvT<su::TermId> {
                     let TermAnnId::Type(ty, _kd) = out else {
                         tycker.err_k(TyckError::SortMismatch, std::panic::Location::caller())?
                     };
+                    // As for the constructors of a data type: a comatch and a
+                    // destructor would each take the first arm of a repeated name.
+                    if arms_vec.iter().any(|(declared, _)| *declared == name) {
+                        tycker.err_k(
+                            TyckError::Expressivity("a codata type declares each destructor once"),
+                            std::panic::Location::caller(),
+                        )?
+                    }
                     arms_vec.push_back((name, ty));
                 }
                 let term = crate::query::InternedTerm::new(tycker.db, self.inner);
